@@ -125,7 +125,7 @@ int main(int argc, char **argv) {
             int ok = 1, rv = 0; long n = 0; size_t sz = 0; void *p = NULL;
             unsigned char *outb = NULL; long outn = -1; int walkids[4096]; int nwalk = -1;
             long lkb = vh_locks - vh_unlocks, ovb = vh_overlap_copies, bfb = vh_badfree;
-            vh_watchdog(2);
+            vh_watchdog(6);
             errno = 0;
             vh_call_begin();
             if (inject) { if (inj_at) vh_fail_at = k; else vh_fail_from = k; }
